@@ -56,6 +56,7 @@ UNITS = {
     "c18": {"kind": "exe", "src": ["units/c18_allocator.cpp"]},
     "math": {"kind": "so", "src": ["math/unit_math.cpp"], "runner": "math_runner",
              "aux": {"math_runner": {"src": "math/math_runner.cpp", "obj": False, "flags": ["-ffp-contract=off"], "libs": ["-ldl", "-lquadmath", "-lpthread"]}}},
+    "c16": {"kind": "exe", "src": ["units/c16_complex.cpp"]},
     "c02": {"kind": "exe", "src": ["units/c02_fp_basic.cpp"], "aux": {"ref": {"src": "common/ref.cpp", "flags": ["-ffp-contract=off", "-fno-builtin"]}}, "link": ["ref"]},
 }
 ALL22 = "every architecture this CPU executes: 20 x86 (sse2 ... avx512vnni<avx512vbmi2>) + emulated<128>, emulated<256>"
@@ -432,5 +433,26 @@ PROPS = {
         "assumptions": COMMON_ASSUME + ["legitimate maxima: ~170 iterations for double tgamma below its overflow threshold, ~33 for float"],
         "floor": {"quick": 10**6, "thorough": 10**8},
         "hang_is_violation": True,
+    },
+    "C16": {
+        "technique": "runtime monitoring: std::complex<long double> reference oracle with per-operation eps tolerances on a log-polar operand grid (axes, diagonals, both sides "
+                     "of the branch cuts); guard-page monitor for the interleaved loads/stores",
+        "level_text": "Every lane of every complex arithmetic / fused / comparison / component / elementary-function call observed is compared with std::complex<long double>: "
+                      "arithmetic within 8 eps of |result|, fused forms within 8 eps of max(|result|, |x||y|+|z|), exp/expm1/sqrt/sin/cos/sinh/cosh within 8 eps and the other claimed "
+                      "functions within 32 eps of max(|result|,1), pow(z, real) on |r||Log z| <= 8, tan/tanh on |Re|,|Im| <= 20; real/imag/conj/proj/neg and ==/!= exactly. "
+                      "Operands: moduli 2^-20..2^20, the 8 axis/diagonal directions exactly with +-0 components, random directions, every lane. Interleaved loads/stores run under "
+                      "the C04 guard-page monitor. asin/acos/atan/asinh/acosh/atanh/log1p are not claimed (DESIGN.md 5.1) and only run under the crash monitor. Exploration.",
+        "level_note": "Trusts libstdc++'s std::complex<long double> on x87 extended precision. Open findings: sqrt on the lower side of the cut, tan/tanh near their poles.",
+        "design_ref": "DESIGN.md section 6 C16, 5.1",
+        "jobs": [
+            {"unit": "c16"},
+            {"unit": "c04"},
+            {"unit": "c16", "variant": "native", "tiers": ["thorough"], "args": ["--scale", "0.3"]},
+            {"unit": "c16", "variant": "clang", "tiers": ["thorough"], "args": ["--scale", "0.3"]},
+        ],
+        "rule": "each evaluation = one lane of one complex operation compared with the long double reference (or one element of an interleaved transfer under the guard-page "
+                "monitor); distinct cell = (op, type, arch, lane, direction class of each operand) / (placement, alignment); " + ALL22,
+        "assumptions": COMMON_ASSUME + ["finite operands, no intermediate overflow (moduli <= 2^20), results outside the subnormal range"],
+        "floor": {"quick": 10**6, "thorough": 10**7},
     },
 }
